@@ -110,6 +110,156 @@ def hasBigEscape : Bytes → Bool
   | _ :: r => hasBigEscape r
   | [] => false
 
+/-! ### position independence of literal values (`pos`)
+
+    C16 <variant> pos <loader> <pad> <head> <lit> <tail> <eof> => <value> <line>
+
+  The chunk was `pad ++ "return " ++ head ++ lit ++ tail ++ (eof = 0: "c16_line()")`.  Neither the Spec nor the Model
+  side looks at how long the padding is or through which loader the text arrived: the value is the Spec value of
+  `lit` read at the head of `lit ++ tail ++ …`, the line is `1 + lineEnds (text before the observing token)`
+  (Model: `1 + linesRead …`, equal by Props.C16.lines_model_refines_spec). -/
+
+/-- text token: `s<hex>` or run-length `r<n>x<hex>+<n>x<hex>…`, as segments (count, unit). -/
+def decSegs (tok : String) : Option (List (Nat × Bytes)) :=
+  match tok.toList with
+  | 's' :: r => (unhexAux r).map fun b => [(1, b)]
+  | 'r' :: r =>
+    ((String.ofList r).splitOn "+").mapM fun seg =>
+      match seg.splitOn "x" with
+      | [n, h] =>
+        match n.toNat?, unhexAux h.toList with
+        | some n, some b => some (n, b)
+        | _, _ => none
+      | _ => none
+  | _ => none
+
+def expandSegs (segs : List (Nat × Bytes)) : Bytes :=
+  segs.flatMap fun p => (List.replicate p.1 p.2).flatten
+
+def decT (tok : String) : Option Bytes := (decSegs tok).map expandSegs
+
+/-- the padding as far as line ends go: a run of bytes without CR/LF ends no line and separates the line ends
+    around it exactly like one blank, so 8 KB of blanks are not materialised. -/
+def padForLines (segs : List (Nat × Bytes)) : Bytes :=
+  segs.flatMap fun p =>
+    if p.2.any QuoteSpec.isNl then (List.replicate p.1 p.2).flatten
+    else if p.1 = 0 ∨ p.2 = [] then [] else [32]
+
+def posSuffix : Bytes := TimeSpec.str "c16_line()"
+
+/-- characters Lua's read_numeral runs over (alphanumerics, `_`, `.`): a numeral must not be followed by one. -/
+def isNumeralCh (c : Nat) : Bool := isIdentCh c || c == 46
+
+/-- the texts llex.c read_numeral reads as ONE token whatever they are: digits and dots, then (after `e`/`E`) one
+    sign, then alphanumerics, `_` (and dots: a second token that cannot follow a number). -/
+def malformedNumeral (lit : Bytes) : Bool :=
+  match lit.dropWhile (fun c => isDec c || c == 46) with
+  | e :: s :: r => if (e == 101 || e == 69) && (s == 43 || s == 45) then r.all isNumeralCh else (e :: s :: r).all isNumeralCh
+  | r => r.all isNumeralCh
+
+/-- what a literal at the head of `lit ++ after` must evaluate to. -/
+inductive PosExp where
+  | bad                 -- ill-formed probe (harness error)
+  | noClaim
+  | err                 -- the chunk must be rejected
+  | str (b : Bytes)     -- a string with these bytes
+  | num (x : Exact)     -- the double nearest to x
+  | numV (v : NumV) (t : Bytes)  -- Model: the token text and the constant loaded for it
+
+def showTail (b : Bytes) : String :=
+  toString b.length ++ " bytes" ++ (if b.length ≤ 24 then " " ++ encS b else " …" ++ (encS (b.drop (b.length - 12))).drop 1)
+
+def posSpec (lit after : Bytes) : PosExp :=
+  match lit with
+  | [] => .bad
+  | c :: r =>
+    if c = 34 ∨ c = 39 ∨ c = 91 then
+      match QuoteSpec.literalPrefix (lit ++ after) with
+      | some (b, rest) => if rest = after then .str b else .bad
+      | none => .err
+    else if isDec c ∨ (c = 46 ∧ (r.head?.map isDec).getD false) then
+      if (after.head?.map isNumeralCh).getD false then .bad
+      else match NumSpec.literal lit with
+        | some x => .num x
+        | none => if malformedNumeral lit then .err else .bad   -- read_numeral takes all of it and cannot convert it
+    else .bad
+
+/-- Model side: the transcribed scanner on the same text (short strings and numerals; long brackets: Spec only).
+    `big` = the literal was sent in run-length form (the transcription's `buf ++ [c]` is quadratic: not replayed). -/
+def posModel (pre big : Bool) (lit after : Bytes) : PosExp :=
+  if big then .noClaim else
+  match lit with
+  | [] => .bad
+  | q :: body =>
+    if q = 34 ∨ q = 39 then
+      match QuoteModel.scanString pre q (body.length + after.length + 1) (body ++ after) [] with
+      | some (b, rest) => if rest = after then .str b else .noClaim
+      | none => .err
+    else if q = 91 then .noClaim
+    else
+      match lexNumber (if pre then Pre.scanNumber else scanNumber) (lit ++ after) with
+      | .notnum => .bad
+      | .err => .err
+      | .tok t rest => if rest = after then .numV (literalValue (if pre then Pre.parseNumber else parseNumber) t) t else .noClaim
+
+/-- compare an expectation with the implementation's value word; `scan` = the bare-scanner loader, whose value for a
+    numeral is the token text. -/
+def posCmp (scan : Bool) (lit : Bytes) (e : PosExp) (res : String) : Option String :=
+  match e with
+  | .bad => some "bad-probe"
+  | .noClaim => none
+  | .err => if res = "err" then none else some "err"
+  | .str b => if decT res = some b then none else some ("string of " ++ showTail b)
+  | .num x =>
+    if scan then (if decT res = some lit then none else some ("token " ++ encS lit))
+    else (match decB res with
+      | some bits => if rounds x bits then none else some (showV (.exact x))
+      | none => some (showV (.exact x)))
+  | .numV v t =>
+    if scan then (if decT res = some t then none else some ("token " ++ encS t))
+    else (match decB res with
+      | some bits => if carries v bits then none else some (showV v)
+      | none => some (showV v))
+
+def handlePos (pre : Bool) (loader pad head lit tail eof res line : String) : Verdict :=
+  match decSegs pad, decT head, decT lit, decT tail with
+  | some padS, some headB, some litB, some tailB =>
+    let after := tailB ++ (if eof = "1" then [] else posSuffix)
+    let scan := loader.startsWith "sc"
+    let big := lit.startsWith "r"
+    let sp := posSpec litB after
+    let before : Bytes := padForLines padS ++ (TimeSpec.str "return " ++ (headB ++ (litB ++ tailB)))
+    let expLine : Nat := 1 + QuoteSpec.lineEnds before
+    let modelLine : Nat := 1 + QuoteModel.linesRead before.length before   -- Scanner.Next/Newline's counter
+    let specVal := posCmp scan litB sp res
+    let specLine : Option String :=
+      match sp with
+      | .str _ | .num _ =>
+        if eof = "1" then (if line = "-" then none else some "bad-probe")
+        else if line = toString expLine then none else some ("line " ++ toString expLine)
+      | _ => none
+    let spec : Option String :=
+      match specVal, specLine with
+      | none, none => none
+      | some v, none => some ("wherever it stands, the literal denotes " ++ v)
+      | none, some l => some ("the token after the literal stands on " ++ l)
+      | some v, some l => some ("wherever it stands, the literal denotes " ++ v ++ "; next token on " ++ l)
+    let pm := posModel pre big litB after
+    let model := match posCmp scan litB pm res with
+      | some m => some m
+      | none =>
+        match pm with
+        | .str _ | .numV _ _ => if eof = "1" ∨ line = toString modelLine then none else some ("line " ++ toString modelLine)
+        | _ => none
+    let v : Verdict := { model := model, spec := spec }
+    match litB with
+    | c :: _ =>
+      if c = 34 ∨ c = 39 ∨ c = 91 then
+        (if pre ∧ v.model.isNone ∧ hasBigEscape litB then { v with spec := v.spec.map fun r => "KF:" ++ kfEsc ++ " " ++ r } else v)
+      else tagKF pre kfNum v
+    | [] => v
+  | _, _, _, _ => { model := some "bad-arg" }
+
 def handle (ws : List String) : Verdict :=
   let (args, impl) := splitArrow ws
   match args with
@@ -250,6 +400,8 @@ def handle (ws : List String) : Verdict :=
         let v : Verdict := { model := model, spec := if r = sres then none else some ("literal denotes " ++ sres) }
         if pre ∧ v.model.isNone ∧ hasBigEscape src then { v with spec := v.spec.map fun r => "KF:" ++ kfEsc ++ " " ++ r } else v
       | none => { model := some "bad-arg" }
+    -- ---------- literals at any position of the chunk, through any loader ----------
+    | "pos", [loader, pad, head, lit, tail, eof], [res, line] => handlePos pre loader pad head lit tail eof res line
     -- ---------- time ----------
     | "date", [t], fs =>
       match t.toInt? with
